@@ -53,6 +53,9 @@ CHECKS = {
  "C16": ("exhaustive enumeration of all policy trees up to a node bound x every subset of available secrets x lock-time environments x every reordering of commutative children, judged by Boolean/threshold semantics with leaf truth obtained by running the leaf's own compiled fragment",
          "All policies with <=3/5 nodes over 10 leaves (2 keys, a hash, after 41/42/43, older 1/2, trivial, unsatisfiable) and and/or/thresh(k, 2-3 children, 0<=k<=n): Policy::cmr == commit().cmr(); for each of 8 availability subsets x 5/8 environments (lock time and sequence below/at/above the thresholds, final, time-typed, disabled): satisfy succeeds <=> the policy is true, the returned program has the policy's CMR and runs. Canonical sorting: all policies with <=5 nodes, every permutation of commutative children at every depth, idempotence.",
          "Signatures are real BIP-340 signatures from fixed keys. Larger policies are not explored.", "5/C16"),
+ "C17": ("exhaustive enumeration of every committed program of the population and of every text rendering of it (each node named or inlined, ascriptions on/off, hidden CMRs as literal or as expression), each parsed, re-rendered and re-parsed on the real parser; exhaustive token strings for totality",
+         "Every commitment-time program with <=4/5 nodes (witness, assertions with hidden CMRs, disconnect holes, fail, words, jet): from_program -> string_serialize -> parse must give the same CMR and bit encoding; every one of the 2^(n-1) inline/named renderings x ascriptions x two hidden-CMR notations: parse, compare with the reference CMR and the program's own encoding, re-render, re-parse, compare again (CMR, encoding, set of node arrows); all strings of <=3/4 tokens over a 33-token alphabet with and without a `main :=` prefix, and all 2-byte raw texts, for termination without panic. Every parse runs twice in-process as a hash-order audit.",
+         "Programs above the node bound and texts with more than one root are not explored.", "5/C17"),
  "C18": ("exhaustive enumeration of all pointer-DAG shapes up to a node bound x sharing policies (no sharing, pointer sharing, every congruence as a class-sharing tracker), iterators stepped against a recursive reference; real Commit/Redeem DAGs with the real MaxSharing",
          "All canonical DAG shapes with <=6/7 nodes and out-degree <=2 through a harness type implementing the public DagLike, under NoSharing, InternalSharing and every congruence partition (<=5/6 nodes) as an abstract identity-hash sharing; post-order, right-to-left, pre-order, verbose pre-order (counters, depth, parent, depth limit) and is_shared_as compared item by item. Real CommitNode/RedeemNode DAGs of <=4/5 nodes with MaxSharing keyed on the actual identity hash.",
          "Trusts the 25-line recursive reference post-order. Larger shapes are not explored.", "5/C18"),
